@@ -23,6 +23,21 @@ CHECKS = {
              'comparison logic unchanged).  Logging macros have empty bodies; __dynamic_cast of the one cast in init() is a harness stand-in.  Symlinks in the underlay are outside '
              'the property (lexical resolution).  Found and fixed (d53df53): legal paths such as "a/.." were refused.',
         technique=TECH, design_ref='DESIGN.md §3 C20'),
+    'C14': dict(
+        text='For every iovector_view of up to 3 elements of 0..2 (quick) / 0..3 (thorough) bytes, every request size from 0 to beyond the total, every offset and every '
+             'destination shape, the solver shows that each operation (sum, shrink_to, shrink_less_than, extract_front/back in their three forms, contiguous extracts, '
+             'slice, memcpy_to/from, pipe_to) returns the count and bytes of the same operation on the flat byte string and leaves exactly the remaining bytes, with CBMC '
+             'checking every load/store against exact-size element buffers and exact-size iovec arrays.',
+        note='One operation per run (sequences of operations and the owning iovector/IOVectorEntity wrappers are not covered).  Elements live in static exact-size arrays '
+             '(heap blocks made the SAT back end run out of memory); memcpy with a symbolic length is a bounded byte loop.  Found and fixed (1a147ad): iov_iterator read iov[0] of an empty view.',
+        technique=TECH, design_ref='DESIGN.md §3 C14'),
+    'C18': dict(
+        text='Sequential inductive step on the real RangeLock + std::set header code: from every state reachable by two (quick) / three (thorough) symbolic try_lock_wait2 calls, one of '
+             'try_lock_wait2 / try_lock_wait / adjust_range / unlock(handle) / unlock(range) with symbolic 64-bit arguments (zero length, saturating end, nested, adjacent), then a symbolic '
+             'probe: a granted range never shares a byte with a held one, a non-conflicting request is granted, the conflict report of try_lock_wait lies inside a held range.',
+        note='Covers the disjointness half of C18 only; the wake-up half (a waiter proceeds after unlock) needs the concurrent engine and is not claimed yet.  libstdc++ red-black '
+             'rebalancing replaced by unbalanced-BST stand-ins with the same ordering contract; cv wait/notify are sequential stubs.  Found and fixed (b3d9cd8): locking the same empty range twice corrupted the index.',
+        technique=TECH, design_ref='DESIGN.md §3 C18'),
 }
 
 NOT_APPLICABLE = {p: 'check under construction in this session (see DESIGN.md §3 for the plan); not claimed until its harness passes on the unchanged tree'
